@@ -2731,7 +2731,10 @@ impl PeerConnection {
             return Ok(());
         }
 
-        for (media_index, (transceiver, section_idx)) in matched.iter().enumerate() {
+        // The primary section goes last: setting up its socket makes the transport
+        // "connected" and start_dtls() then wires every transceiver to the transport it
+        // finds in rtp_media_transports, so the per-section transports must exist by then.
+        for (media_index, (transceiver, section_idx)) in matched.iter().enumerate().rev() {
             if let Some(remote_addr) =
                 Self::remote_rtp_addr_from_section(desc, &desc.media_sections[*section_idx])
             {
